@@ -23,7 +23,13 @@ import traceback
 
 VERIF = os.path.dirname(os.path.dirname(os.path.abspath(__file__)))
 COQ = os.path.join(VERIF, "coq")
-REPO = "/repo"
+REPO = os.environ.get("VERIF_REPO", "/repo")
+
+
+def repo_root():
+    """root of the source tree under verification (/repo, or a scratch copy when VERIF_REPO is set)"""
+    return REPO
+
 LOCK = os.path.join(COQ, ".lock")
 GUARD = "OPENDSM_EEMETER_VERIF"
 
@@ -142,6 +148,22 @@ def forbidden_tokens():
     return bad
 
 
+def ensure_makefile():
+    """_CoqProject lists every .v under Model/ Proofs/ Properties/ Generated/ (regenerated when the set changes)."""
+    files = []
+    for d in ("Model", "Proofs", "Properties", "Generated"):
+        dd = os.path.join(COQ, d)
+        if os.path.isdir(dd):
+            files += sorted(os.path.join(d, f) for f in os.listdir(dd) if f.endswith(".v"))
+    text = "-R . V\n-arg -w -arg -notation-overridden,-deprecated-hint-without-locality\n" + "\n".join(files) + "\n"
+    cp = os.path.join(COQ, "_CoqProject")
+    mk = os.path.join(COQ, "Makefile")
+    old = open(cp).read() if os.path.exists(cp) else None
+    if old != text or not os.path.exists(mk):
+        open(cp, "w").write(text)
+        sh("coq_makefile -f _CoqProject -o Makefile", cwd=COQ)
+
+
 # --------------------------------------------------------------------------------------
 # the run object
 # --------------------------------------------------------------------------------------
@@ -179,6 +201,9 @@ class Run:
         self.corr_failures = []    # (stream, case, model_out)
         self.known = [k for k in json.load(open(os.path.join(VERIF, "known_findings.json")))["findings"]
                       if k["property"] == pid]
+        extra = os.path.join(VERIF, "known_findings.d", pid + ".json")
+        if os.path.exists(extra):
+            self.known += [k for k in json.load(open(extra))["findings"] if k["property"] == pid]
         self.casedir = os.path.join(COQ, "Cases", "%s-%d" % (pid, os.getpid()))
         os.makedirs(os.path.join(VERIF, "evidence"), exist_ok=True)
 
@@ -250,10 +275,7 @@ class Run:
         return self.proof_ok
 
     def _ensure_makefile(self):
-        mk = os.path.join(COQ, "Makefile")
-        cp = os.path.join(COQ, "_CoqProject")
-        if not os.path.exists(mk) or os.path.getmtime(mk) < os.path.getmtime(cp):
-            sh("coq_makefile -f _CoqProject -o Makefile", cwd=COQ)
+        ensure_makefile()
 
     def ensure_models(self, files, timeout=1500):
         """make the given .vo (and what they depend on) if stale."""
